@@ -20,7 +20,7 @@ import ast, copy, types
 import pyast
 import dataflow_common as dc
 
-T = '__T'
+T = '_mvT_'
 
 
 class NotInstrumentable(Exception):
@@ -73,7 +73,27 @@ def scan_functions(f, ser):
         return fs
 
     def scan(n, fs, comp_targets):
-        if isinstance(n, (ast.ClassDef, ast.AsyncFunctionDef, ast.AsyncFor, ast.AsyncWith, ast.Yield, ast.YieldFrom, ast.Await,
+        if isinstance(n, ast.ClassDef):
+            # limited support: a class body of simple statements.  Names bound in the body are class-local (treated like
+            # comprehension targets: reads of them inside the body are not reads of the function's variables).
+            fs.bound.add(n.name)
+            for x in n.decorator_list + n.bases + [k.value for k in n.keywords]:
+                scan(x, fs, comp_targets)
+            local = set(comp_targets)
+            for st in n.body:
+                if not isinstance(st, (ast.Assign, ast.AnnAssign, ast.AugAssign, ast.Expr, ast.Pass)):
+                    raise NotInstrumentable('ClassDef with ' + type(st).__name__)
+                for m in ast.walk(st):
+                    if isinstance(m, (ast.Lambda, ast.ListComp, ast.SetComp, ast.DictComp, ast.GeneratorExp, ast.NamedExpr)):
+                        raise NotInstrumentable('ClassDef with ' + type(m).__name__)
+                    if isinstance(m, ast.Name) and isinstance(m.ctx, (ast.Store, ast.Del)):
+                        local.add(m.id)
+            for st in n.body:
+                for m in ast.walk(st):
+                    if isinstance(m, ast.Name) and isinstance(m.ctx, ast.Load) and m.id not in local:
+                        fs.names_used.add(m.id)
+            return
+        if isinstance(n, (ast.AsyncFunctionDef, ast.AsyncFor, ast.AsyncWith, ast.Yield, ast.YieldFrom, ast.Await,
                           ast.NamedExpr)) or type(n).__name__ in ('Match', 'TryStar', 'TypeAlias'):
             raise NotInstrumentable(type(n).__name__)
         if isinstance(n, ast.FunctionDef):
@@ -103,6 +123,8 @@ def scan_functions(f, ser):
             tg = set(comp_targets)
             for g in n.generators:
                 tg.update(_store_names(g.target))
+            # the FIRST iterable is evaluated in the enclosing scope: names in it are not the comprehension's targets
+            scan(n.generators[0].iter, fs, comp_targets)
             for c in ast.iter_child_nodes(n):
                 scan(c, fs, tuple(tg))
             return
@@ -182,8 +204,9 @@ class Rewriter:
             for g in e.generators:
                 tg.update(_store_names(g.target))
             tg = tuple(tg)
-            for g in e.generators:
-                g.iter = self.expr(g.iter, tg)
+            for gi, g in enumerate(e.generators):
+                # the first iterable is evaluated in the enclosing scope, before any target exists
+                g.iter = self.expr(g.iter, comp if gi == 0 else tg)
                 g.ifs = [self.expr(i, tg) for i in g.ifs]
             if isinstance(e, ast.DictComp):
                 e.key, e.value = self.expr(e.key, tg), self.expr(e.value, tg)
@@ -230,6 +253,22 @@ class Rewriter:
             s.args = self.arguments(s.args)
             self.function(s)
             return pre + [s, self.ev('wr', _c(sid), _names_tuple([s.name]))]
+        if isinstance(s, ast.ClassDef):
+            s.decorator_list = [self.expr(d) for d in s.decorator_list]
+            s.bases = [self.expr(b) for b in s.bases]
+            for k in s.keywords:
+                k.value = self.expr(k.value)
+            local = set()
+            for st in s.body:
+                for m in ast.walk(st):
+                    if isinstance(m, ast.Name) and isinstance(m.ctx, (ast.Store, ast.Del)):
+                        local.add(m.id)
+            local = tuple(local)
+            for st in s.body:       # the body runs during the visit of the ClassDef node; its own bindings are class-local
+                for field, v in ast.iter_fields(st):
+                    if isinstance(v, ast.expr) and not (field in ('target',) or field == 'annotation'):
+                        setattr(st, field, self.expr(v, local))
+            return [node_ev, s, self.ev('wr', _c(sid), _names_tuple([s.name]))]
         if isinstance(s, (ast.Assign, ast.AnnAssign, ast.AugAssign)):
             pre = [node_ev]
             if isinstance(s, ast.Assign):
@@ -334,7 +373,7 @@ class Rewriter:
     def function(self, f):
         """rewrite the body of FunctionDef f in place"""
         fid = self.nid(f)
-        a, e = '__mv_a', '__mv_e'
+        a, e = '_mv_a_', '_mv_e_'
         body = self.block(f.body)
         wrapped = ast.Try(
             body=body or [ast.Pass()],
